@@ -553,3 +553,30 @@ func VerifC10_MeanVarConsistency() {
 }
 
 var _ = math.Inf
+
+// VerifC10_KendallTiesOnes: with ties ALLOWED (the value of Kendall on tied
+// data is the recorded finding of VerifC10_KendallTies, so nothing is said
+// about it here), the statements of C10 that do hold on tied data: unit
+// weights give exactly the nil-weights result, constant positive weights give
+// the unit-weights result, and the result is symmetric in x and y. (The
+// nil-weights value is folded natively by the engine, i.e. rounded, so it is
+// compared with concrete unit weights; the constant-weights value is an exact
+// real and is compared with SYMBOLIC unit weights.)
+func VerifC10_KendallTiesOnes() {
+	n := verifChoose("n", 2, verifParam("kn", 3))
+	x, y := verifFloats("x", n), verifFloats("y", n)
+	c := verifFloat("c")
+	verifAssume(c > 0)
+	u := verifFloats("u", n)
+	one, cs := make([]float64, n), make([]float64, n)
+	for i := range one {
+		one[i], cs[i] = 1, c
+		verifAssume(u[i] == 1)
+	}
+	tau := Kendall(x, y, nil)
+	verifAssertEqF(Kendall(x, y, one), tau, "Kendall: unit weights = nil weights, ties included")
+	verifAssertEqF(Kendall(x, y, cs), Kendall(x, y, u), "Kendall: constant weights = unit weights, ties included")
+	verifAssertEqF(Kendall(y, x, nil), tau, "Kendall symmetric in x and y, ties included")
+	verifAssertEqF(Kendall(y, x, u), Kendall(x, y, u), "weighted Kendall symmetric in x and y, ties included")
+	verifReach("end")
+}
